@@ -30,7 +30,7 @@ if __name__ == '__main__':
                 r = rtc.run_one(job['fn'], cfg, sizes, seed + n)
                 n += 1
                 if r['ok'] is False:
-                    fails.append({'fn': job['fn'], 'cfg': cfg, 'sizes': sizes, 'detail': r['detail']})
+                    fails.append({'fn': job['fn'], 'cfg': cfg, 'sizes': sizes, 'eff': r.get('eff', {}), 'detail': r['detail']})
                 elif r['ok'] is None:
                     errors.append({'fn': job['fn'], 'cfg': cfg, 'sizes': sizes, 'detail': r['detail']})
     print(json.dumps({'evaluations': n, 'failures': fails[:50], 'n_failures': len(fails), 'errors': errors[:5],
